@@ -133,3 +133,10 @@ Theorem C07_exec_is_real_model b p g nr rn :
   map Q2R (getdXdt Qops b p g nr rn) = getdXdt Rops (map Q2R b) (map Q2R p) (map Q2R g) (Q2R nr) (Q2R rn).
 Proof. exact (getdXdt_hom b p g nr rn). Qed.
 Print Assumptions C07_exec_is_real_model.
+
+Theorem C07_exec_is_real_model_corrected dt b p g nr rn :
+  Forall (fun z => ~ (z == 0)%Q) (diffs Qops b) -> ~ (dt == 0)%Q -> Forall (fun x => (0 <= x)%Q) p ->
+  map Q2R (correctdXdt Qops dt b p g nr rn) =
+    correctdXdt Rops (Q2R dt) (map Q2R b) (map Q2R p) (map Q2R g) (Q2R nr) (Q2R rn).
+Proof. exact (correctdXdt_hom dt b p g nr rn). Qed.
+Print Assumptions C07_exec_is_real_model_corrected.
